@@ -122,7 +122,7 @@ func (x *Exec) bytesEqual(f *frame, a, b Val) Term {
 	j := x.S.freshName("j")
 	jt := Term{j, SBV(64)}
 	all := fmt.Sprintf("(forall ((%s (_ BitVec 64))) (=> (bvult %s %s) (= %s %s)))", j, j, a.T[2].S, at(a, jt).S, at(b, jt).S)
-	x.S.Assert(Implies(f.cur.pc, Eq(r, And(Eq(a.T[2], b.T[2]), Term{all, SBool}))))
+	f.assume(Eq(r, And(Eq(a.T[2], b.T[2]), Term{all, SBool})))
 	return r
 }
 
@@ -159,7 +159,7 @@ func (f *frame) binaryPut(t *ssa.Call, sl Val, v Val, w int, bigE bool) {
 		}
 		inner = Store(inner, BVBin("bvadd", sl.T[1], BVInt(int64(j), 64)), Extract(v.One(), hi, hi-7))
 	}
-	f.cur.heap = x.H.Set(f.cur.heap, "M.uint8[]", Store(m, sl.T[0], inner))
+	f.cur.heap = x.H.SetAt(f.cur.heap, "M.uint8[]", sl.T[0], Store(m, sl.T[0], inner))
 	f.vals[t] = Val{Typ: t.Type()}
 }
 
@@ -247,6 +247,30 @@ func (x *Exec) specBuiltin(c *EvalCtx, name string, args []ast.Expr) (Val, bool)
 	case "sameslice": // sameslice(a, b): identical slice headers
 		a, b := c.eval(args[0]), c.eval(args[1])
 		return scalar(And(Eq(a.T[0], b.T[0]), Eq(a.T[1], b.T[1]), Eq(a.T[2], b.T[2]), Eq(a.T[3], b.T[3])), types.Typ[types.Bool]), true
+	case "bytestore", "samebytes":
+		// bytestore(sl, i, v): the backing array of slice sl now equals its old content with element i
+		// (relative to the slice start) replaced by v.  samebytes(sl): the backing array is unchanged.
+		// Quantifier-free array equations, so that frames follow by the array theory alone.
+		a := c.eval(args[0])
+		sl, ok := a.Typ.Underlying().(*types.Slice)
+		if !ok || c.Old == nil {
+			evalFail("%s expects a slice in a two-state context", name)
+		}
+		keys, sorts := elemKeys(sl.Elem())
+		if len(keys) != 1 {
+			evalFail("%s on composite element type", name)
+		}
+		cur := Select(x.H.Get(c.Heap, keys[0], wrapSort(sorts[0], 1)), a.T[0])
+		old := Select(x.H.Get(c.Old, keys[0], wrapSort(sorts[0], 1)), a.T[0])
+		if name == "samebytes" {
+			return scalar(Eq(cur, old), types.Typ[types.Bool]), true
+		}
+		idx := c.asIndex(c.eval(args[1]))
+		v := c.eval(args[2])
+		if v.Typ == nil {
+			v = c.coerce(v, sl.Elem())
+		}
+		return scalar(Eq(cur, Store(old, BVBin("bvadd", a.T[1], idx), v.One())), types.Typ[types.Bool]), true
 	case "arr": // arr(s): backing array reference of a slice (for aliasing statements)
 		a := c.eval(args[0])
 		return Val{T: []Term{a.T[0]}, Typ: types.Typ[types.UnsafePointer]}, true
